@@ -520,6 +520,34 @@ def _(v):
     return call(go, X=X, Y=Y, con=con)
 
 
+@probe("glm.Contrast objects (floored variances)")
+def _(v):
+    """Contrast objects made directly from caller arrays, all statistic types and dimensions, with variances at
+    and below the floor `tiny` (constant voxels): stat / p_value / z_score / arithmetic leave the arrays alone"""
+    from nipy.modalities.fmri.glm import Contrast
+    r = rs(v); nv = max(v["n"], 1)
+    thunks, objs = [], {}
+    for ty in ("t", "F", "tmin-conjunction"):
+        for q in ((1,) if ty == "t" else (1, 2, 3)):
+            A = r.randint(-3, 4, size=(q, q, nv)).astype(float)
+            var = np.einsum("ikv,jkv->ijv", A, A) + np.eye(q)[:, :, None]
+            if ty != "F" or q == 1:
+                for k in range(nv):          # one component without variance at every other voxel
+                    if k % 2 == 0:
+                        i = int(r.randint(q)); var[i, :, k] = 0.0; var[:, i, k] = 0.0
+            eff = lay(r.randint(-8, 9, size=(q, nv)) / 4.0, v["layout"])
+            var = lay(var if q > 1 or r.rand() < 0.5 else var.reshape(1, 1, nv), v["layout"])
+            objs[f"effect_{ty}_{q}"] = eff; objs[f"variance_{ty}_{q}"] = var
+
+            def go(eff=eff, var=var, ty=ty, q=q):
+                c = Contrast(eff, var, dof=7.0, contrast_type=ty)
+                c.stat(); c.p_value(); c.z_score(); c.stat(baseline=0.5); c.p_value(0.5)
+                d = c + Contrast(eff, var, dof=3.0, contrast_type=ty)
+                d.stat(); (2.0 * c).z_score(); (c * 0.5).p_value(); (c / 2.0).stat()
+            thunks.append((f"Contrast[{ty},{q}]", go))
+    return call(thunks, **objs)
+
+
 @probe("labs.glm")
 def _(v):
     from nipy.labs.glm import glm as G
